@@ -36,11 +36,11 @@ Proof.
   subst. repeat split; reflexivity.
 Qed.
 
-(* the regenerated reHexcolor is  # (hex{3} | hex{6}) $  (the names of the
+(* the regenerated reHexcolor is  # (hex{3} | hex{6})  applied as a full match (the names of the
    generated classes are not used: the shape is established by unification) *)
 Definition hex_cls : cls := [(48, 57); (65, 70); (97, 102)].
 Definition hexcolor_shape : Prop :=
-  exists cs ch, re_hexcolor_value = Cat (Chr cs) (Cat (Alt (Rep true 3 (Some 3%nat) (Chr ch)) (Rep true 6 (Some 6%nat) (Chr ch))) Eol)
+  exists cs ch, re_hexcolor_value = Cat (Chr cs) (Alt (Rep true 3 (Some 3%nat) (Chr ch)) (Rep true 6 (Some 6%nat) (Chr ch)))
                 /\ cs = [(35, 35)] /\ ch = hex_cls.
 Lemma hexcolor_shape_holds : hexcolor_shape.
 Proof. unfold hexcolor_shape, re_hexcolor_value. do 2 eexists. split; [reflexivity|]. split; reflexivity. Qed.
@@ -50,7 +50,7 @@ Lemma valid_hash_sharp v : valid_hash v = true -> hd 0 v = 35.
 Proof.
   unfold valid_hash. intros H. apply andb_prop in H. destruct H as [H _].
   destruct hexcolor_shape_holds as (cs & ch & E & -> & _). rewrite E in H.
-  unfold matches in H.
+  unfold fullmatch in H.
   destruct v as [|c v]; [cbn in H; discriminate|].
   cbn [m] in H. cbn [hd].
   destruct (cls_mem c [(35, 35)]) eqn:C; [|discriminate].
